@@ -6,7 +6,7 @@ direct oracle.  Line protocol (one request per line, one answer per line unless 
   as <hex buf>                       → as <hex of the buffer after libxmp_adjust_string>
   rt <s> <pos> <hex data>            → rt <newpos> <hex written at t | none>
   pt <s> <hex b | null>              → pt <hex written at t by pw_read_title>
-  tm <hex t> <hex l>                 → tm <0|1> <hex canon t> <hex canon l>
+  tm <hex t> <hex l>                 → tm <0|1> <hex canon t> <hex canon l> <strict 0|1>
 
   table                              start a new loader table
   L <hex name> <mod> <rem> <rcfail> <tmode> <toff> <tlen> <hex traw> <lrc> <lmode> <sane>
@@ -136,7 +136,7 @@ partial def loop (h : IO.FS.Stream) (st : St) : IO Unit := do
   | ["tm", t, l] =>
     let tb := parseHex t
     let lb := parseHex l
-    IO.println s!"tm {b2s (titleMatch tb lb)} {toHex (canon tb)} {toHex (canon lb)}"
+    IO.println s!"tm {b2s (titleMatch tb lb)} {toHex (canon tb)} {toHex (canon lb)} {b2s (titleMatchStrict tb lb)}"
     loop h st
   | ["table"] => loop h {}
   | ["L", name, m, r, rcf, tmode, toff, tlen, traw, lrc, lmode, sane] =>
